@@ -5,6 +5,7 @@ The GCD field width `gb` is instantiated here with hardware floats, as deployed 
 import Qco.Driver.Hex
 import Qco.Spec.File
 import Qco.Train.WFc
+import Qco.Op.Decomp
 namespace Qco.Driver
 open Qco
 
@@ -169,10 +170,82 @@ def cmdEnc (args : List String) : String :=
       | r => resTag r
   | _ => "bad-args"
 
+/-! ### decompressor operations (`dops`) -/
+
+def errStr : Op.Err → String
+  | .insufficient => "err InsufficientData"
+  | .corrupt => "err Corruption"
+  | .compat => "err Compatibility"
+  | .invalid => "err InvalidArgument"
+
+/-- metadata in the harness's format (no `common=` field; gcd per prefix) -/
+def metaStrH (m : ChunkMeta) : String :=
+  s!"n={m.n} body={m.bodyBytes} moments={",".intercalate (m.moments.map Hex.ofNat)} prefixes={";".intercalate (m.prefixes.map prefixStr)}"
+
+def itemStr : Op.Item → String
+  | .flags f => s!"flags {flagsStr f}"
+  | .meta_ m => s!"meta {metaStrH m}"
+  | .nums xs => s!"nums {valsStr xs}"
+  | .footer => "footer"
+
+def dopStep (d : DType) (limit : Nat) (σ : Op.St) (op : String) : String × Op.St :=
+  let L := Op.matchStride
+  let head := (op.take 1).toString
+  let arg := (op.drop 1).toString
+  match head with
+  | "W" => ("ok", Op.write σ (Hex.toBits arg))
+  | "H" =>
+    match Op.header d σ with
+    | (.ok f, σ') => (s!"ok flags={flagsStr f}", σ')
+    | (.err e, σ') => (errStr e, σ')
+  | "M" =>
+    match Op.chunkMetadata gbFloat d σ with
+    | (.ok (some m), σ') => (s!"ok meta {metaStrH m}", σ')
+    | (.ok none, σ') => ("ok none", σ')
+    | (.err e, σ') => (errStr e, σ')
+  | "B" =>
+    match Op.chunkBody L d σ with
+    | (.ok xs, σ') => (s!"ok vals={valsStr xs}", σ')
+    | (.err e, σ') => (errStr e, σ')
+  | "S" =>
+    match Op.skipChunkBody σ with
+    | (.ok _, σ') => ("ok", σ')
+    | (.err e, σ') => (errStr e, σ')
+  | "N" =>
+    match Op.next L gbFloat d limit σ with
+    | (.ok none, σ') => ("none", σ')
+    | (.ok (some it), σ') => (itemStr it, σ')
+    | (.err e, σ') => (errStr e, σ')
+  | "R" =>
+    let (items, e, σ') := Op.drainIter L gbFloat d limit 100000000 σ []
+    let strs := items.map itemStr ++ (match e with | some e => [errStr e] | none => [])
+    (if strs.isEmpty then "drained" else "drained " ++ " , ".intercalate strs, σ')
+  | "F" => ("ok", Op.free σ)
+  | "D" =>
+    match Op.simpleDecompress L gbFloat d σ with
+    | (.ok xs, σ') => (s!"ok vals={valsStr xs}", σ')
+    | (.err e, σ') => (errStr e, σ')
+  | "I" => ("ok", σ)
+  | "G" => ("dbg -", σ)
+  | _ => ("bad-op", σ)
+
+def cmdDops (args : List String) : String :=
+  match args with
+  | dt :: limit :: ops =>
+    match Frozen.dtypeByName dt with
+    | none => "bad-dtype"
+    | some d =>
+      let (outs, _) := ops.foldl (fun (acc : List String × Op.St) op =>
+        let (r, σ') := dopStep d limit.toNat! acc.2 op
+        (s!"{r}@{σ'.bitIdx}" :: acc.1, σ')) ([], Op.St.init)
+      " ; ".intercalate outs.reverse
+  | _ => "bad-args"
+
 def answer (line : String) : String :=
   match line.trimAscii.toString.splitOn " " with
   | "dec" :: args => cmdDec args
   | "enc" :: args => cmdEnc args
+  | "dops" :: args => cmdDops args
   | "map" :: args => cmdMap args
   | "mapu" :: args => cmdMapU args
   | "rawbytes" :: args => cmdRawBytes args
